@@ -395,9 +395,16 @@ def text_of(res):
     return res if isinstance(res, str) else str(res)
 
 
+def line_text(line):
+    """One item of a line iterator -> its text, the way the repository consumes lines
+    (CHText("\\n").join(lines) accepts CHText objects, chunks and lists of chunks alike)."""
+    from ak.color import CHText
+    return str(line) if isinstance(line, (CHText, str)) else str(CHText(line))
+
+
 def lines_text(res):
     """Consume a result line by line -> the text the lines make up."""
-    return "\n".join(str(line) for line in res)
+    return "\n".join(line_text(line) for line in res)
 
 
 # --------------------------------------------------------------------------- pristine reference
@@ -430,7 +437,8 @@ def _serve(req):
         kw["palette"] = p.palette_class
     out = {"whole": text_of(p.result(**kw))}
     if name in ITERABLE:
-        out["lines"] = [str(line) for line in p.result(**kw)]
+        out["lines"] = [line_text(line) for line in p.result(**kw)]
+        out["lines_str"] = [str(line) for line in p.result(**kw)]     # plain str() of every line object
     return out
 
 
